@@ -43,6 +43,9 @@ func c16Build(name string, seed uint64) *lib.Build {
 		b.PutSymlink("lnk", "a.bin")
 		b.PutDir("hollow")
 		b.PutFile("z-empty.bin", nil) // the LAST file of the container is empty: its only possible wound has an empty range
+	case "huge": // more blocks than the wounds channel has slots (1024), then one more file
+		b.PutFile("a-huge.bin", lib.RandomBytes(1536*lib.BS+77, r.Uint64()))
+		b.PutFile("z-small.bin", lib.RandomBytes(100, r.Uint64()))
 	case "files1": // a single file: it is the first AND the last one the file worker gets
 		b.PutFile("only.bin", lib.RandomBytes(lib.BS-100, r.Uint64()))
 	case "files300":
@@ -91,6 +94,11 @@ func c16Cases(tier string, seed uint64, flavor string) []lib.Case {
 				i++
 			}
 		}
+	}
+	// --- a consumer that returns at the first wound while the worker still has more than 1024 blocks of that file to report on
+	for k, cons := range []string{"failfast", "wounds-missingdir", "wounds-devfull", "failfast"} {
+		add(c16Spec{Build: "huge", Damage: "first", Consumer: cons, Cancel: "none", Sched: []string{"none", "perturb"}[k/3], SchedSeed: lib.Mix(seed, uint64(i)), Procs: []int{1, 16}[k%2]})
+		i++
 	}
 	// --- cancellation instants, fail-fast (the clean-verdict clause) and the other consumers (termination)
 	cancelCases := func(build string, damages []string, nfiles int, every int) {
